@@ -77,6 +77,12 @@ func (ex *Exec) declareSpecFuncs() error {
 }
 
 func (fr *FnRun) evalBool(e *Expr, env *Env) *Term {
+	// specifications may mention arrays that were appended to (their old cells are unchanged)
+	if env.st != nil && env.st.stale != nil {
+		saved := env.st.stale
+		env.st.stale = nil
+		defer func() { env.st.stale = saved }()
+	}
 	v := fr.eval(e, env)
 	t, ok := v.(*Term)
 	if !ok {
@@ -392,7 +398,13 @@ func (fr *FnRun) evalQuant(e *Expr, env *Env) Val {
 	}
 	body := fr.evalBool(e.Z, cur)
 	if e.Kind == "forall" {
-		return Forall(bound, Implies(rng, body))
+		q := Forall(bound, Implies(rng, body))
+		if q.Op == "forall" {
+			if ps := selectPatterns(q.Args[0], bound); len(ps) > 0 && false {
+				q.Pats, q.AltPats = ps, true
+			}
+		}
+		return q
 	}
 	return Exists(bound, And(rng, body))
 }
